@@ -171,6 +171,28 @@ def gen(rng, tier):
               "bc1qw508d6qejxtdg4y5r3zarvary0c5xw7kv8f3t5", "bc1gmk9yu", "bc1pw5dgrnzv", "bc1zw508d6qejxtdg4y5r3zarvaryvqyzf3du", "BC1QR508D6QEJXTDG4Y5R3ZARVARYV98GJ9P",
               "bc1p0xlxvlhemja6c4dqv22uapctqupfhlxm9h8z3k2e72q4k9hcz7v8n0nx0muaewav253zgeav", "bc1p0xlxvlhemja6c4dqv22uapctqupfhlxm9h8z3k2e72q4k9hcz7v07qwwzcrf"):
         yield Case("segwitdec", [tx("bc"), tx(s)], "vector-segwit")
+    # directed: past failures of address decoders (padding bits, padded Base32, foreign payload sizes)
+    from bip_utils import NanoAddrEncoder, NimAddrEncoder, XmrAddrEncoder, Base32Encoder
+    from bip_utils.addr.nim_addr import _NimAddrUtils, NimAddrConst
+    for i in range(3 if tier == "quick" else 40):
+        pub = pub_forms("ed25519blake2b", rand_priv(rng, "ed25519blake2b"))[0]
+        a = NanoAddrEncoder.EncodeKey(pub)
+        for c in "13456789abcdefghijkmnopqrstuwxyz":
+            yield Case("addrdec", ["nano", tx("nano_" + c + a[6:])], "directed-nano-pad")
+        for n in (16, 17, 18, 19, 20):
+            enc = Base32Encoder.Encode(bytes(rng.randrange(256) for _ in range(n)), NimAddrConst.BASE32_ALPHABET)
+            yield Case("addrdec", ["nim", tx("NQ" + _NimAddrUtils.ComputeChecksum(enc) + enc)], "directed-nim-padded")
+        for hrp in ("bc", "tb", "ltc"):
+            for v, ln in ((0, 32), (0, 20), (1, 32), (1, 20)):
+                yield Case("addrdec", ["p2wpkh", tx(SegwitBech32Encoder.Encode(hrp, v, bytes(rng.randrange(256) for _ in range(ln)))), "hrp=" + tx(hrp)], "directed-witprog")
+                yield Case("addrdec", ["p2tr", tx(SegwitBech32Encoder.Encode(hrp, v, bytes(rng.randrange(256) for _ in range(ln)))), "hrp=" + tx(hrp)], "directed-witprog")
+        sk, vk = (pub_forms("ed25519monero", rand_priv(rng, "ed25519monero"))[0] for _ in range(2))
+        std = XmrAddrEncoder.EncodeKey(sk, pub_vkey=vk, net_ver=b"\x12")
+        yield Case("addrdec", ["xmrint", tx(std), "net_ver=12", "payment_id=" + hx(bytes(8))], "directed-xmr-std-as-int")
+        from bip_utils import XmrIntegratedAddrEncoder
+        integ = XmrIntegratedAddrEncoder.EncodeKey(sk, pub_vkey=vk, net_ver=b"\x13", payment_id=bytes(range(8)))
+        yield Case("addrdec", ["xmr", tx(integ), "net_ver=13"], "directed-xmr-int-as-std")
+        yield Case("addrdec", ["xmrint", tx(integ), "net_ver=13", "payment_id=" + hx(bytes(range(8)))], "directed-xmr-int")
 
 
 def relations(rng, tier, rpt):
@@ -199,4 +221,58 @@ def relations(rng, tier, rpt):
                         "relation": "a Bech32 string with 1..4 substituted symbols is accepted", "input": m,
                         "impl_output": got.hex() if isinstance(got, bytes) else str(got), "model_output": "rejected", "no_failing_input": False})
     rpt.extra["bech32_le4_substitution_checks"] = n
+    bad = bad[:5] + _spelling_relation(rng, tier, rpt)
+    return bad
+
+
+ALPHA = {"nano": "13456789abcdefghijkmnopqrstuwxyz", "nim": "0123456789ABCDEFGHJKLMNPQRSTUVXY=", "algo": "ABCDEFGHIJKLMNOPQRSTUVWXYZ234567=",
+         "xlm": "ABCDEFGHIJKLMNOPQRSTUVWXYZ234567=", "fil": "abcdefghijklmnopqrstuvwxyz234567="}
+
+
+def _spelling_relation(rng, tier, rpt):
+    """every address decoder on the implementation: a string that differs from a valid address (beyond letter case and,
+    for Nimiq, spaces) and is accepted under the same parameters never yields the same payload, and every accepted
+    string yields a payload of the format's fixed length.  All single substitutions are enumerated."""
+    bad = []
+    n = acc = 0
+    T = fmt_table()
+    for fmt, (curve, enc, dec, params) in T.items():
+        for i in range(1 if tier == "quick" else 6):
+            kw = dict(params[rng.randrange(len(params))])
+            pub = pub_forms(curve, rand_priv(rng, curve))[0]
+            if fmt in ("xmr", "xmrint"):
+                kw["pub_vkey"] = hx(pub_forms(curve, rand_priv(rng, curve))[0])
+                if fmt == "xmrint":
+                    kw["payment_id"] = hx(bytes(rng.randrange(256) for _ in range(8)))
+            ckw = conv_kw(fmt, kw)
+            addr = enc.EncodeKey(pub, **ckw)
+            dkw = {k: v for k, v in ckw.items() if k not in ("pub_key_mode", "trim_zeroes", "pub_vkey", "pub_skey", "compressed")}
+            try:
+                ref = dec.DecodeAddr(addr, **dkw)
+            except Exception:  # noqa  (reported by the model diff)
+                continue
+            alphabet = ALPHA.get(fmt) or (B32C + "b1io" if addr.lower() == addr and "1" in addr and fmt not in ("eth",) and set(addr[addr.rfind("1") + 1:]) <= set(B32C) else B58 + "0OIl")
+            norm = (lambda x: x.replace(" ", "").lower()) if fmt == "nim" else (lambda x: x.lower())
+            for m, kind in mutations(rng, addr, alphabet, 60 if tier == "quick" else 400, exhaustive_single=True):
+                if norm(m) == norm(addr):
+                    continue
+                n += 1
+                try:
+                    got = dec.DecodeAddr(m, **dkw)
+                except Exception:  # noqa  (error classes are C14's and the model diff's business)
+                    continue
+                acc += 1
+                why = None
+                if got == ref:
+                    why = "a different spelling of a valid address decodes to the same payload (non-canonical form accepted)"
+                elif isinstance(got, (bytes, str)) and len(got) != len(ref):
+                    why = "an accepted string yields a payload of a length the format does not define"
+                if why:
+                    line = "addrdec %s %s %s" % (fmt, tx(m), " ".join(kwfields({k: v for k, v in kw.items() if k not in ("compressed", "trim_zeroes", "pub_vkey")})))
+                    bad.append({"property": "C10", "entry_point": dec.__name__ + ".DecodeAddr", "request_lines": [line.strip()], "relation": why,
+                                "input": m, "valid_address": addr, "impl_output": got.hex() if isinstance(got, bytes) else str(got),
+                                "model_output": "rejected or a different payload of the fixed length", "no_failing_input": False})
+                    break
+    rpt.extra["spelling_relation_mutants"] = n
+    rpt.extra["spelling_relation_accepted"] = acc
     return bad[:5]
